@@ -19,7 +19,7 @@ CLEAN_DEADLINE_S = 200      # C05 clause 3: everything gone within this much aft
 
 
 def gen_plan(rng, opts=None):
-    o = dict(nmax=8, hmax=3, wmax=2, max_out=3, lossy=False, jitter=True, faults=None, gpu=True, fair=False, slow=False)
+    o = dict(nmax=8, hmax=3, wmax=2, max_out=3, lossy=False, jitter=True, faults=None, gpu=True, fair=False, slow=False, blob=True)
     o.update(opts or {})
     if o.get("graph"):
         gp = G.gen_graph_plan(rng, o.get("graph_opts"))
@@ -28,6 +28,9 @@ def gen_plan(rng, opts=None):
     job = J.gen_job_plan(rng, nmax=o["nmax"], max_out=o["max_out"], ncomp_max=3, gpu=o["gpu"], p_empty=0.02)
     for t in job["tasks"]:
         t["work_ms"] = rng.choice([0, 0, 0, 1, 20, 300])
+    if o.get("blob") and rng.random() < 0.5:
+        for t in job["tasks"]:
+            t["blob"] = rng.random() < 0.6      # values with a zero-copy custom serde (JobInstance.serdes)
     cluster = J.gen_cluster_plan(rng, job, hmax=o["hmax"], wmax=o["wmax"])
     if o["jitter"]:
         lat_hi = rng.choice([50_000, 2_000_000, 2_000_000, 50_000_000, 900_000_000])
@@ -54,6 +57,11 @@ def gen_plan(rng, opts=None):
                 faults.append(dict(kind="kill", proc=f"h{rng.randrange(cluster['hosts'])}.data", after=rng.randint(0, 200)))
             elif k == "kill_shm":
                 faults.append(dict(kind="kill", proc=f"h{rng.randrange(cluster['hosts'])}.shm", after=rng.randint(0, 200)))
+    if o.get("slow"):
+        pool = [f"h{h}.{k}" for h in range(cluster["hosts"]) for k in ["shm", "data"] + [f"w{w}" for w in range(cluster["wph"])]] + [f"h{h}" for h in range(cluster["hosts"])]
+        for _ in range(rng.choice([0, 1, 1, 2])):
+            # a process that is stopped for a while (seconds) at its n-th seam call after registration, then resumes
+            faults.append(dict(kind="stall", proc=rng.choice(pool), after=rng.randint(0, 150), ms=rng.choice([300, 1500, 3000, 7000])))
     slow = []
     if o.get("slow") and rng.random() < 0.6:
         # a slow or stalled node: one host (with all its processes), one worker, one data server, or the controller
@@ -231,7 +239,11 @@ def run(plan, ch, want_log=False):
     ginfo = None
     if "graph" in plan:
         simtasks.reset()
-        job, ref, ginfo = G.materialise(plan["graph"])
+        try:
+            job, ref, ginfo = G.materialise(plan["graph"])
+        except G.Refused:
+            return dict(harness=NAME, viol=[], probes={"lowering_refused_duplicate_names": 1}, fired={}, digest="refused", steps=0, simtime=0.0,
+                        stats={}, nontrivial={}, end="refused", verdict="refused")
         jp = dict(tasks=[])
     else:
         jp = plan["job"]
@@ -252,7 +264,7 @@ def run(plan, ch, want_log=False):
     result = {}
     hosts, wph = cp["hosts"], cp["wph"]
     task_faults = {f["task"]: f for f in faults if f["kind"].startswith("task_")}
-    kills = [dict(f) for f in faults if f["kind"] == "kill"]   # copies: the plan itself is never mutated
+    kills = [dict(f) for f in faults if f["kind"] in ("kill", "stall")]   # copies: the plan itself is never mutated
     work = {t["name"]: t.get("work_ms", 0) for t in jp["tasks"]}
     if ginfo is not None:
         work = {}
@@ -299,6 +311,9 @@ def run(plan, ch, want_log=False):
                 continue
             if p.nseam - reg_nseam.get(p.name, 0) >= f["after"]:
                 f["done"] = True
+                if f["kind"] == "stall":
+                    K.stall(p, f["ms"] * 1_000_000)      # not a crash: every fault-free oracle still applies
+                    continue
                 if mon.teardown:
                     return     # teardown is not a fault: the property speaks of points of a run
                 fault_fired("kill:" + p.name.split(".")[-1].rstrip("0123456789"), p.name)
@@ -420,6 +435,9 @@ def _judge(plan, jp, job, K, mon, result, fstate, end, want_log, ref, ginfo):
         td = mon.teardown.get(host, mon.teardown.get("ctrl"))
         helper_crashes.append((name, err[:200], td is not None))
     early_crashes = [c for c in helper_crashes if not c[2] and c[0] != "ctrl"]
+    if not faulted and not lossy and ginfo is None and verdict in ("hang", "raised") and job.ext_outputs:
+        viol.append(("C01", "requested_outputs_not_delivered", dict(verdict=verdict, error=result.get("error"), tf=mon.task_failures[:2],
+                                                                    ef=mon.executor_failures[:2]), sig_base))
     if ginfo is not None and ginfo["expect_failure"]:
         if verdict == "hang":
             viol.append(("C10", "count_mismatch_not_reported", dict(hang=end, failed=ginfo["failed"]), {}))
@@ -458,6 +476,13 @@ def _judge(plan, jp, job, K, mon, result, fstate, end, want_log, ref, ginfo):
         if verdict == "returned" and not wrong:
             K.probe("run_succeeded_despite_fault")
 
+    # ---- a run without any injected fault must not produce a failure report at all (clean completion)
+    if not faulted and not lossy and verdict == "returned" and ginfo is None:
+        from cascade.executor.msg import ExecutorFailure
+        from cascade.executor.serde import des_message
+        spurious = [des_message(raw) for (addr, raw), n in mon.sent.items() if isinstance(des_message(raw), ExecutorFailure)]
+        if spurious:
+            viol.append(("C05", "failure_reported_after_normal_completion", [repr(m)[:160] for m in spurious[:2]], sig_base))
     # ---- clean exit (C05 clause 3), after every run that ended
     if t_end is not None:
         live = set(getattr(K, "live_at_end", []))
